@@ -84,14 +84,14 @@ func (sps *ServerPoolSpec) Validate() (err error)
   invariant[1] none: serversGotWeight == 0 ==> (forall k int :: 0 <= k && k < idx$1 ==> sps.Servers[k].Weight == 0)
 
 func (lb *ipHashLoadBalancer) ChooseServer(req *httpprot.Request) (s *Server)
-  requires lb != nil
+  requires lb != nil && req != nil
   requires list-fits-uint32: len(lb.Servers) < pow2(32)
   ensures empty: len(lb.Servers) == 0 ==> s == nil
-  ensures sticky: len(lb.Servers) > 0 ==> s == lb.Servers[fnv32(bytes(realIPOf(req)), len(realIPOf(req))) % len(lb.Servers)]
+  ensures sticky: len(lb.Servers) > 0 ==> s == lb.Servers[fnv32(bytes(req.realIP), len(req.realIP)) % len(lb.Servers)]
 
 func (lb *headerHashLoadBalancer) ChooseServer(req *httpprot.Request) (s *Server)
-  requires lb != nil
+  requires lb != nil && req != nil && req.Request != nil
   requires list-fits-uint32: len(lb.Servers) < pow2(32)
   ensures empty: len(lb.Servers) == 0 ==> s == nil
-  ensures sticky: len(lb.Servers) > 0 ==> (let v = headerGet(headerOf(req), lb.key) in s == lb.Servers[fnv32(bytes(v), len(v)) % len(lb.Servers)])
+  ensures sticky: len(lb.Servers) > 0 ==> (let v = headerGet(ref(req.Request.Header), lb.key) in s == lb.Servers[fnv32(bytes(v), len(v)) % len(lb.Servers)])
 @*/
